@@ -16,7 +16,12 @@
 (*   pkg/object/httpserver.runtime          reload -> SetMaxConnection(spec.MaxConnections);     *)
 (*        net/http's Serve loop is the (single) acceptor.                                        *)
 (*                                                                                              *)
-(* `Size` stands for maxCapacity (20 000 000): any value above every cap behaves the same.       *)
+(* A connection whose peer has finished its stream (EOF / half-close) stays open, and keeps its   *)
+(* slot, until its handler calls Close (PeerEOF / CloseConn).                                     *)
+(*                                                                                              *)
+(* `Size` stands for maxCapacity (20 000 000): any value well above every reachable effective    *)
+(* cap behaves the same; with Size = the largest cap (maxConnections >= maxCapacity) unordered    *)
+(* tuners can also drive `cur` below zero, where x/sync panics (NoReleasePanic).                  *)
 (* `Ordered = TRUE` models the proposed repair (fixes/c17-sem-ordered-resize.diff): the tuner of *)
 (* a call waits for the tuner of the previous call.                                              *)
 (*                                                                                              *)
